@@ -1,3 +1,4 @@
+\* a retransmission whose socket write takes time and may fail, Close called meanwhile
 SPECIFICATION Spec
 VIEW View
 CHECK_DEADLOCK FALSE
@@ -6,10 +7,10 @@ CONSTANTS
   RTO = 500
   MaxIvl = 1600
   MaxSend = 7
-  FineTime = TRUE
+  FineTime = FALSE
   SlowWrites = FALSE
-  SlowRtx = "no"
-  FailAts = {0, 1, 2, 7}
-  MaxDepth = 6
+  SlowRtx = "write"
+  FailAts = {0}
+  MaxDepth = 7
 CONSTRAINT DepthBound
 ACTION_CONSTRAINT EmitEdge
